@@ -764,6 +764,12 @@ func (b *bctx) lt(v, X ssa.Value, use ssa.Instruction) bool {
 	if k, ok := constInt(v); ok {
 		return b.lenGT(X, k, use)
 	}
+	// X = f(A) with len(f(A)) == len(A) (an element-wise "map" function of the library): v < len(A) suffices
+	if call := asCall(X); call != nil {
+		if A, ok := lengthPreservingArg(call); ok && b.lt(v, A, use) {
+			return true
+		}
+	}
 	// len(X) - k with k >= 1
 	if bo, ok := v.(*ssa.BinOp); ok && bo.Op == token.SUB {
 		if Y, isLen := lenOf(bo.X); isLen && sameVal(Y, X) {
@@ -1349,3 +1355,99 @@ func involvesHelperResult(in ssa.Instruction) bool {
 	}
 	return false
 }
+
+// lengthPreservingArg: call invokes a library function whose slice result has, on every return, exactly as many
+// elements as one of its slice parameters (built from an empty slice by ONE append of ONE element in every iteration
+// of a loop over that parameter that is never left early — a "map" function such as normalizeOffers). It returns the
+// argument that plays that parameter. Decided from the callee's body on every run.
+func lengthPreservingArg(call *ssa.Call) (ssa.Value, bool) {
+	g := call.Call.StaticCallee()
+	if g == nil || g.Blocks == nil || !isRepoPath(fnPkgPath(g)) || g.Signature.Results().Len() != 1 {
+		return nil, false
+	}
+	if _, isSl := g.Signature.Results().At(0).Type().Underlying().(*types.Slice); !isSl {
+		return nil, false
+	}
+	if v, ok := lenPreserveCache[g]; ok {
+		if v < 0 || v >= len(call.Call.Args) {
+			return nil, false
+		}
+		return call.Call.Args[v], true
+	}
+	lenPreserveCache[g] = -1
+	var app *ssa.Call
+	for _, in := range ownInstrs(g) {
+		c, ok := in.(*ssa.Call)
+		if !ok || calleeName(&c.Call) != "builtin append" {
+			continue
+		}
+		if app != nil {
+			return nil, false
+		}
+		app = c
+	}
+	if app == nil || len(app.Call.Args) != 2 {
+		return nil, false
+	}
+	if elems, ok := sliceLitElems(app.Call.Args[1]); !ok || len(elems) != 1 {
+		return nil, false
+	}
+	for _, l := range sliceLoops(g, nil) {
+		prm, isP := l.X.(*ssa.Parameter)
+		if !isP || !l.Header.Dominates(app.Block()) || !reachableFrom(app.Block(), l.Header) {
+			continue
+		}
+		if !l.everyIteration(isOneOf(app)) || !l.noEarlyExit() {
+			continue
+		}
+		// the accumulator starts empty and is only ever extended by this append
+		okAcc, _ := allOrigins(app.Call.Args[0], func(o Origin) bool {
+			if o.V == ssa.Value(app) || isNilConst(o.V) {
+				return true
+			}
+			if ms, isMS := o.V.(*ssa.MakeSlice); isMS {
+				k, isK := constInt(ms.Len)
+				return isK && k == 0
+			}
+			if _, isAl := o.V.(*ssa.Alloc); isAl {
+				return true // the zero value of a named result
+			}
+			return false
+		})
+		if !okAcc {
+			continue
+		}
+		okRet := true
+		for _, r := range realReturns(g) {
+			okR, _ := allOrigins(r.Results[0], func(o Origin) bool {
+				if o.V == ssa.Value(app) || isNilConst(o.V) {
+					return true
+				}
+				if ms, isMS := o.V.(*ssa.MakeSlice); isMS {
+					k, isK := constInt(ms.Len)
+					return isK && k == 0
+				}
+				_, isAl := o.V.(*ssa.Alloc)
+				return isAl
+			})
+			if !okR {
+				okRet = false
+			}
+		}
+		if !okRet {
+			continue
+		}
+		for i, pp := range g.Params {
+			if pp == prm {
+				lenPreserveCache[g] = i
+			}
+		}
+	}
+	v := lenPreserveCache[g]
+	if v < 0 || v >= len(call.Call.Args) {
+		return nil, false
+	}
+	return call.Call.Args[v], true
+}
+
+var lenPreserveCache = map[*ssa.Function]int{}
